@@ -200,7 +200,7 @@ func c10r3(c *RC) {
 		}
 		return false
 	}, ErrFlowOpts{SentinelOK: []string{"sliceio.EOF"}}, nil)
-	c.Floor("input/spill error sites", n, 14)
+	c.Floor("input/spill error sites", n, 8)
 	// EOF manufacture in these functions: sanctioned sites only
 	eofSites(c, fns)
 }
